@@ -421,12 +421,16 @@ func runCase(seed int64, idx int, pr params) *caseResult {
 			}
 			// seeded overlaps (release API vs re-bind; resync pass vs re-creation)
 			if pr.interleave > 0 && i%(3*pr.faultEvery) == pr.faultEvery-1 {
-				for kind := 0; kind < 2; kind++ {
+				for kind := 0; kind < 3; kind++ {
 					c, err := pre.Clone(evid.NewRng(seed, "ilt", idx*100000+i*100+kind))
 					if err != nil {
 						continue
 					}
-					c.interleaveTemplate(kind)
+					if kind == 2 {
+						c.interleaveDpUnbinds()
+					} else {
+						c.interleaveTemplate(kind)
+					}
 					if merge(c) {
 						return finish()
 					}
@@ -458,6 +462,13 @@ func runCase(seed int64, idx int, pr params) *caseResult {
 		}
 	}
 	s.exec(Op{Kind: "quiesce"}, nil, nil)
+	if pr.prop == "C03" && idx%3 == 2 && s.ownAlarms() == 0 {
+		// C03's deployment clause under overlapping unbinds (the history's end state is the starting point)
+		s.interleaveDpUnbinds()
+		if s.ownAlarms() == 0 {
+			s.exec(Op{Kind: "quiesce"}, nil, nil)
+		}
+	}
 	return finish()
 }
 
